@@ -21,6 +21,7 @@ macro_rules! instances {
 crate::amv::common::real_map_scenarios!();
 
 instances! {
+    c01_s_fww_min => s_fww_min();
     c01_s_first_writer_wins => m_first_writer_wins();
     c01_s_two_present => s_two_present();
     c01_s_take => s_take();
